@@ -14,7 +14,7 @@ VARIABLES l,          \* index of the next line of Trace
           bad,        \* "" or the reason the recorder could not parse an event
           reqs,       \* well-formed requests of the current trace, arrival order: [id, typ]
           resps,      \* responses in emission order: [id, typ, code]
-          must,       \* ids of reads/writes that precede the first close of their handle (C14: must succeed)
+          must,       \* positions (in reqs) of reads/writes that precede the first close of their handle (C14: must succeed)
           closedSlots,\* handle slots for which a CLOSE has been sent
           mustOff,    \* handle slot -> offsets of the reads/writes that precede the first close of that slot
           opsEnded,   \* offsets of read/write handler calls that have returned
@@ -51,14 +51,14 @@ Step(e) ==
   CASE e.ev = "Reset" -> Fresh /\ UNCHANGED bad
     [] e.ev \in Ignored -> UNCHANGED <<bad, reqs, resps, must, closedSlots, mustOff, opsEnded, c14, holder, sent, c18, endrec>>
     [] e.ev = "Req" ->
-         /\ reqs' = IF e.wf THEN Append(reqs, [id |-> e.id, typ |-> e.typ]) ELSE reqs
-         /\ must' = IF Has(e, "k") /\ e.k \in {"R","W"} /\ e.slot \notin closedSlots THEN must \cup {e.id} ELSE must
+         /\ reqs' = IF e.wf THEN Append(reqs, [id |-> e.id, typ |-> e.typ, sig |-> IF Has(e, "sig") THEN e.sig ELSE -1]) ELSE reqs
+         /\ must' = IF Has(e, "k") /\ e.k \in {"R","W"} /\ e.slot \notin closedSlots THEN must \cup {Len(reqs) + 1} ELSE must
          /\ closedSlots' = IF Has(e, "k") /\ e.k = "C" THEN closedSlots \cup {e.slot} ELSE closedSlots
          /\ mustOff' = IF Has(e, "k") /\ e.k \in {"R","W"} /\ e.slot \notin closedSlots
                          THEN Upd(mustOff, e.slot, Get(mustOff, e.slot, {}) \cup {e.off}) ELSE mustOff
          /\ UNCHANGED <<bad, resps, opsEnded, c14, holder, sent, c18, endrec>>
     [] e.ev = "Resp" ->
-         /\ resps' = Append(resps, [id |-> e.id, typ |-> e.typ, code |-> e.code])
+         /\ resps' = Append(resps, [id |-> e.id, typ |-> e.typ, code |-> e.code, sig |-> e.sig])
          /\ bad' = IF e.bad THEN "response frame does not parse" ELSE bad
          /\ UNCHANGED <<reqs, must, closedSlots, mustOff, opsEnded, c14, holder, sent, c18, endrec>>
     [] e.ev = "OpBegin" ->
@@ -105,6 +105,7 @@ Inv_WellFormed == bad = ""
 (* C02 *)
 Inv_C02_Order     == C02_Order(reqs, resps)
 Inv_C02_LegalType == C02_LegalType(reqs, resps)
+Inv_C02_OwnPayload == C02_OwnPayload(reqs, resps)
 Inv_C02_AllAnswered ==
   endrec.kind \in {"open", "eof"} => (~endrec.timeout /\ endrec.nresp = endrec.nreq /\ C02_AllAnswered(reqs, resps))
 
@@ -112,7 +113,7 @@ Inv_C02_AllAnswered ==
 Inv_C14_NoRWAfterClose == c14 = ""
 Inv_C14_AllSucceed ==
   \A i \in 1..Len(resps) :
-     (i <= Len(reqs) /\ reqs[i].id \in must) =>
+     (i <= Len(reqs) /\ i \in must) =>
         (resps[i].typ = "DATA" \/ (resps[i].typ = "STATUS" /\ resps[i].code = 0))
 
 (* C18 *)
